@@ -81,6 +81,13 @@ def _exclusion(name_lit, root_variant, siblings=None):
     itself does not say which kind the node is (the kind is decided inside a predicate)"""
     def pred(tr, path, missing):
         v = tr.variant_known(path, ())
+        if v is None:
+            # a per-node hook (`visit_call_expr(&CallExpr)`): the kind of the node is the hook's parameter type
+            pty_ = core_type((tr.fn.rec.get("params") or [{}, {}])[1].get("ty") or "") if len(tr.fn.rec.get("params") or []) > 1 else ""
+            if pty_.endswith("::CallExpr"):
+                v = "swc_ecma_ast::Expr::Call"
+            elif pty_.endswith("::NewExpr"):
+                v = "swc_ecma_ast::Expr::New"
         unknown_root = v is None and siblings is not None
         if not unknown_root and not (isinstance(v, str) and v.endswith("Expr::" + root_variant)):
             return None
@@ -514,7 +521,7 @@ def _isparam(f, place, idx):
 
 def run(check):
     check.rule("TRAV-COVER", "every override of the literal collector visits all children that can contain a literal on every path, except require(<lit>,..) / new RegExp(<lit>,..) guarded by exactly the four documented conjuncts")
-    check.guarded("TRAV-COVER", lambda c: T.run_cover(c, "TRAV-COVER", LV, {T.LIT}, [_exclusion("require", "Call", {"Call": "require", "New": "RegExp"}), _exclusion("RegExp", "New")], {"visit_expr"}))
+    check.guarded("TRAV-COVER", lambda c: T.run_cover(c, "TRAV-COVER", LV, {T.LIT}, [_exclusion("require", "Call", {"Call": "require", "New": "RegExp"}), _exclusion("RegExp", "New")], [{"visit_expr"}, {"visit_call_expr", "visit_new_expr"}]))
     check.guarded("DEFAULT-VISITOR", lambda c: T.rule_default_visitor(c, "Visit", {T.LIT}))
     check.guarded("BOOLDISCARD", rule_booldiscard)
     check.guarded("WINDOW", rule_window)
